@@ -113,4 +113,50 @@ theorem Same_roW (h : Same c0 c) :
       else c) := by
   ctrav
 
+/-! ### the connect calls once the SM record exists -/
+
+theorem Same_connectClient (hsm : c.hasSm = true) : Same c (connectClient c).1 := by
+  unfold connectClient
+  split
+  · exact Same.refl c
+  · split
+    · exact Same.refl c
+    · dsimp only
+      try rw [if_pos hsm]
+      exact Same_connConnect (Same.refl c)
+
+theorem Same_connectComponent (hsm : c.hasSm = true) : Same c (connectComponent c).1 := by
+  unfold connectComponent
+  split
+  · exact Same.refl c
+  · have h1 : Same c (setFlags c (getFlags c ||| Gen.flagDisableTls)).1 := Same_setFlags (Same.refl c)
+    generalize setFlags c (getFlags c ||| Gen.flagDisableTls) = r at h1
+    obtain ⟨c1, rc⟩ := r
+    dsimp only at h1 ⊢
+    split
+    · exact h1
+    · try rw [if_pos (h1.2.2.trans hsm)]
+      exact Same_connConnect h1
+
+theorem Same_connectRaw (hsm : c.hasSm = true) : Same c (connectRaw c).1 := by
+  unfold connectRaw
+  split
+  · exact Same.refl c
+  · have h1 : Same c (connectClient { c with isRaw := true }).1 :=
+      (show Same c { c with isRaw := true } from ⟨rfl, rfl, rfl⟩).trans (Same_connectClient hsm)
+    generalize connectClient { c with isRaw := true } = r at h1
+    obtain ⟨c1, rc⟩ := r
+    dsimp only at h1 ⊢
+    split
+    · exact h1
+    · exact h1
+
+theorem count_carried_across' (c : Conn) (k : ConnectKind) (hsm : c.hasSm = true) :
+    (connDisconnect c).sm.handledNr = c.sm.handledNr ∧ (step c (.connect k)).sm.handledNr = c.sm.handledNr := by
+  refine ⟨(Same_connDisconnect (Same.refl c)).1, ?_⟩
+  cases k
+  · exact (Same_connectClient hsm).1
+  · exact (Same_connectComponent hsm).1
+  · exact (Same_connectRaw hsm).1
+
 end Strophe.Lemmas.ConnC05
